@@ -81,6 +81,10 @@ SUMMARY = {
 'c08z':'fill() returns Ok(false) on EOF after data (third independent rediscovery of c08d)',
 'c17z':'single-rare-byte prefilter memoises (address, length, start, hit) of its last scan (variant of c17a)',
 'c18z':'a read error after a partial fill is dropped, Ok(true) returned (variant of c18a)',
+'c07ra':'sliding-window roll buffer (start offset, memmove only when room runs out) whose compaction path assumes the window ends at the end of the allocation: with 0 < room < min the first `room` bytes of the next fill are never scanned',
+'c08ra':'table variant batches output in an 8 KiB Vec; a piece that exactly fills the batch is written directly ahead of the still-pending batch: bytes reordered',
+'c17ra':'roll buffer recycled per thread by a Drop impl that skips the reset when absolute_pos == 0: a stream search whose first fill got a short read and then an error leaves stale bytes for the next stream search on that thread',
+'c18ra':'fill() uses read_vectored with an 8 KiB lookahead; a read error right after lookahead bytes were moved in is dropped (needs a vectored reader, a stream > 64 KiB and a transient error)',
 'c18a':'fill returns Ok(true) instead of the error when it had already buffered bytes in the same call: one-shot read errors during the initial fill vanish',
 'c18b':'closure errors of kind Interrupted are retried by calling the closure again: error swallowed, partial output duplicated',
 'c18c':'fill commits its new end only after the loop: an error on a later read of one fill discards bytes accepted earlier; polling on shifts all later offsets',
